@@ -3,6 +3,8 @@ sys.path.insert(0,'/verif')
 from lib import report as R, facts as FA, selfval, extract as X
 CLAIMED=[c["property_id"] for c in json.load(open('/verif/MANIFEST.json'))["checks"]]
 KNOWN_ALARM={
+ ('Y3','1'): "C02 P6 / C10 Q1: lex_string walks char_indices() and adds `offset + c.len_utf8()`, the slicing site sits under a `match` arm guard instead of an `if`: the overflow-checked addition and the slice are different constructs under differently spelled guards than the reviewed ones (verifier-style inventory; same class as W6-1 and X7-3)",
+ ('Y3','3'): "C01 L7: the local macro n_tokens! of build_tree rewritten as a local closure `count_tokens(from, pred: fn(SyntaxKind) -> bool)`: the proof reads the trivia predicate of every eat_token count at the macro expansion or at the call of a run-length *function*; it does not follow a call through a closure value, so it cannot see which predicate a count was taken with and reports the five counts (a limit of the analysis, stated here rather than hidden)",
  ('X3','2'): "C15 M1: the `take_while(..).sum()` / `map(..).sum()` of line_col_for_pos / end_col_for_line rewritten as explicit `+=` loops: new overflow-checked additions that the panic inventory can neither discharge mechanically nor match to a reviewed site (the same limit as in campaigns 3, 4 and 6)",
  ('X7','3'): "C02 P6 / C10 Q1: the string scan moved into closing_quote_end, which walks char_indices() and adds `start + c.len_utf8()` where lex_string summed `total_len += c.len_utf8()`: a different overflow-checked addition under different guards than the reviewed one (verifier-style inventory; bounded by the text length). Every other rule about the callback (L1 bytes, G9 transitions and memory, K14) follows the loop into the helper",
  ('W1','2'): "C15 M1: the iterator `.sum()` of end_col_for_line / line_col_for_pos rewritten as an explicit `+=` loop is a new overflow-checked addition that the panic inventory can neither discharge mechanically nor match to a reviewed site (same limit as in campaigns 3 and 4)",
@@ -37,7 +39,7 @@ for t in sys.argv[1:]:
         shutil.rmtree(dst,ignore_errors=True); os.makedirs(dst)
         shutil.copy(patch,dst+'/patch.diff')
         meta={"benign":True,"summary":"%s: %s"%(ch.get('kind',''),ch.get('what','')),"why_behaviour_preserving":ch.get('why_behaviour_preserving',''),
-              "origin":"sub-agent asked for realistic behaviour-preserving refactorings of a given file set (seventh campaign, aimed at the files the rules of rounds 7 and 8 read: the usage search and its scope, the inferencer's arms and statement loop, LineMap, PackageGraph / Module::is_local, the scope walk and the import queries, the diagnostics publisher and the change handlers, the nesting guard / wrap budget / string lexer, the type display and the clause lowering); no knowledge of the properties or of /verif; it confirmed build + unchanged suite",
+              "origin":"sub-agent asked for realistic behaviour-preserving refactorings of a given file set (eighth campaign, aimed at the files the rules of round 9 read); no knowledge of the properties or of /verif; it confirmed build + unchanged suite",
               "confirmed":{"how":"all rule modules on a scratch copy of /repo + patch","outcome":"all claimed checks silent" if not alarms else "all claimed checks silent except the documented one"},
               "silent_for":[p for p in CLAIMED if p not in alarms]}
         if ka: meta["known_alarm"]=ka
